@@ -21,9 +21,9 @@ func init() {
 		Doc: "exhaustive backtracking: every transition is offered to Match, every match is recorded and tried, false only after exhaustion", Run: fsm3})
 	register(&Rule{ID: "FSM-4", Props: []string{"C02", "C09", "C15", "C12"}, Floor: 5,
 		Doc: "context isolation: fresh context per transition with the options-ended flag copied, the same context goes to the recursive call, Merge only on its success, Merge appends in order", Run: fsm4})
-	register(&Rule{ID: "FSM-5", Props: []string{"C02", "C06", "C07", "C13", "C19"}, Floor: 4,
+	register(&Rule{ID: "FSM-5", Props: []string{"C02", "C06", "C07", "C13", "C19", "C20"}, Floor: 4,
 		Doc: "Set/Clear are invoked only by the container filler and the env application; the filler runs only after a successful match and its error is returned", Run: fsm5})
-	register(&Rule{ID: "FSM-6", Props: []string{"C02", "C06", "C12", "C13", "C15", "C19", "C07"}, Floor: 6,
+	register(&Rule{ID: "FSM-6", Props: []string{"C02", "C06", "C12", "C13", "C15", "C19", "C07", "C09"}, Floor: 6,
 		Doc: "fill protocol: Clear once (guarded only by the MultiValued assertion) before the values, Set(v) for every value in order, error returned at once, then ValueSetFromEnv=false and *ValueSetByUser=true", Run: fsm6})
 	register(&Rule{ID: "FSM-7", Props: []string{"C01", "C09", "C02"}, Floor: 3,
 		Doc: "command-line `--`: stripped only while options are not ended, sets the flag, drops exactly the first token; the accept test is made on the vector handed to the matchers", Run: fsm7})
@@ -919,6 +919,7 @@ func fsm3(c *Ctx) {
 	}
 	okRec := false
 	why = "no accumulator of matches"
+	recHoldsNext := false
 	var recAlloc *ssa.Alloc
 	if acc != nil && verdict != nil && rem != nil {
 		// edges: nil init, itself, append(acc, rec)
@@ -962,6 +963,11 @@ func fsm3(c *Ctx) {
 						if v == trv {
 							okT = true
 						}
+						// or the transition's target state itself
+						if b, isN := fieldOf(v, "Next"); isN && b == trv {
+							okT = true
+							recHoldsNext = true
+						}
 					}
 				}
 				if !okF || !okT {
@@ -1001,6 +1007,12 @@ func fsm3(c *Ctx) {
 		var m ssa.Value
 		if okN {
 			if tb, _, okT := ir.FieldLoad(nb); okT {
+				m = tb
+			}
+		}
+		if m == nil && recHoldsNext {
+			// the record keeps the target state: the call is made on that field of the record
+			if tb, _, okT := ir.FieldLoad(rec.Call.Args[0]); okT {
 				m = tb
 			}
 		}
@@ -1621,6 +1633,100 @@ func fsm5(c *Ctx) {
 			}
 		}
 	}
+	// the two collections are filled separately and in a fixed order: the options' map first, then the
+	// arguments' map, each handed over as it stands (not merged into one map, whose iteration order
+	// would decide which value a variable bound to both ends up with)
+	{
+		// per function that calls the filler
+		byFn := map[*ssa.Function][]*ssa.Call{}
+		var fns []*ssa.Function
+		for _, us := range sites {
+			if _, seen := byFn[us.fn]; !seen {
+				fns = append(fns, us.fn)
+			}
+			byFn[us.fn] = append(byFn[us.fn], us.cv)
+		}
+		okOrder := false
+		merged := false
+		var where *ssa.Function
+		for _, host := range fns {
+			var optsCall, argsCall *ssa.Call
+			for _, cv := range byFn[host] {
+				for _, a := range cv.Call.Args {
+					if !isContainerMap(a.Type()) {
+						continue
+					}
+					_, f, isF := ir.FieldLoad(a)
+					switch {
+					case isF && f == "Opts":
+						optsCall = cv
+					case isF && f == "Args":
+						argsCall = cv
+					default:
+						// one call in a loop over the fixed array {Opts, Args}
+						var arr ssa.Value
+						if sl, isR := rangeElem(a); isR {
+							arr = sl
+						} else if ix, isIx := a.(*ssa.Index); isIx && isRangeIndex(ix.Index) {
+							if ld, isLd := ix.X.(*ssa.UnOp); isLd && ld.Op == token.MUL {
+								arr = ld.X
+							}
+						}
+						if arr != nil {
+							if al, isAl := arr.(*ssa.Alloc); isAl {
+								var at [2]string
+								n := 0
+								for _, u := range *al.Referrers() {
+									ia, isIA := u.(*ssa.IndexAddr)
+									if !isIA {
+										continue
+									}
+									k, isK := ir.ConstInt(ia.Index)
+									for _, uu := range *ia.Referrers() {
+										if st, isSt := uu.(*ssa.Store); isSt && isK && k >= 0 && k < 2 {
+											if _, fld, okF := ir.FieldLoad(st.Val); okF {
+												at[k] = fld
+												n++
+											}
+										}
+									}
+								}
+								if n == 2 && at[0] == "Opts" && at[1] == "Args" {
+									okOrder, where = true, host
+									continue
+								}
+							}
+						}
+						merged = true
+					}
+				}
+			}
+			if optsCall != nil && argsCall != nil &&
+				(optsCall.Block() == argsCall.Block() && ir.IndexIn(optsCall) < ir.IndexIn(argsCall) || optsCall.Block() != argsCall.Block() && optsCall.Block().Dominates(argsCall.Block())) {
+				okOrder, where = true, host
+			}
+			// writes into the collected maps in the function that fills them (a merge in place)
+			ir.Instrs(host, func(in ssa.Instruction) {
+				if mu, ok := in.(*ssa.MapUpdate); ok && isContainerMap(mu.Map.Type()) {
+					if _, f, isF := ir.FieldLoad(mu.Map); isF && (f == "Opts" || f == "Args") {
+						merged = true
+					}
+				}
+			})
+		}
+		if len(sites) > 0 {
+			pos := token.NoPos
+			name := "filler"
+			if where != nil {
+				pos, name = where.Pos(), Q(where)
+			} else if len(fns) > 0 {
+				pos, name = fns[0].Pos(), Q(fns[0])
+			}
+			mk := len(c.Obs)
+			c.Check(okOrder && !merged, name+":options-then-arguments", pos, "the options' values are stored first, then the arguments', each from its own collection", "the collected options and arguments are not filled as two separate collections in the order options, arguments (with one merged map the order is that of map iteration)")
+			c.Scope(mk, "C02", "C20")
+		}
+	}
 	// a failed match yields a non-nil error
 	if parse := c.fnOpt("internal/fsm", "State.Parse"); parse != nil && ml != nil {
 		okFail := false
@@ -1731,6 +1837,21 @@ func fsm6(c *Ctx) {
 			}
 			if okB, w := noBreak(h); !okB {
 				okSet, why = false, w
+			}
+		}
+	}
+	// the collected strings go nowhere else: no other function of the module is handed them (a helper
+	// written for another syntax, e.g. the environment list, would transform them)
+	if okSet {
+		for _, call := range ir.Calls(fn) {
+			f := ir.Static(call)
+			if f == nil || f.Pkg == nil || !c.P.InModule(f.Pkg.Pkg) {
+				continue
+			}
+			for _, a := range call.Common().Args {
+				if a == vs {
+					okSet, why = false, "the collected strings are also handed to "+Q(f)+" instead of being applied one by one with Set"
+				}
 			}
 		}
 	}
@@ -2263,4 +2384,21 @@ func fsm8(c *Ctx) {
 			}
 		}
 	}
+}
+
+// isContainerMap: map[*container.Container][]string
+func isContainerMap(t types.Type) bool {
+	m, ok := t.Underlying().(*types.Map)
+	if !ok {
+		return false
+	}
+	if !isStringSlice(m.Elem()) {
+		return false
+	}
+	p, isP := m.Key().(*types.Pointer)
+	if !isP {
+		return false
+	}
+	n, isN := p.Elem().(*types.Named)
+	return isN && n.Obj().Name() == "Container"
 }
